@@ -47,3 +47,22 @@ Theorem C05_printed_word_is_scanned_back :
     exists F, scan_word F (print_parts w ++ rest) [] = Some (w, rest).
 Proof. exact scan_print_scan. Qed.
 Print Assumptions C05_printed_word_is_scanned_back.
+
+(** Open finding F64, as a theorem about the model of the printer's notation for parameter
+    expansions: two different expansions are written alike (the parameter # with operator ? and an
+    empty word, and the length of $?).  The witness is replayed on the implementation by the round
+    trip on every run ('echo ${#?' + line continuation + '}' in the corpus) and reported as the
+    known finding. *)
+Theorem C05_parameter_notation_not_injective_F64 :
+  exists a b, a <> b /\ print_pexp a = print_pexp b.
+Proof. exact print_pexp_refuted. Qed.
+Print Assumptions C05_parameter_notation_not_injective_F64.
+
+(** Open finding F65, likewise: the word a\ at the very end of the input is accepted (an escape of
+    nothing); printed and followed by anything else than the end of the input it is another word.
+    Replayed on the implementation on every run ('>f echo a\' without a final newline). *)
+Theorem C05_trailing_backslash_refuted_F65 :
+  exists f s w, scan_word f s [] = Some (w, []) /\
+    forall F, scan_word F (print_parts w ++ [32; 62; 102]%N) [] <> Some (w, [32; 62; 102]%N).
+Proof. exact trailing_backslash_refuted. Qed.
+Print Assumptions C05_trailing_backslash_refuted_F65.
